@@ -75,6 +75,17 @@ TTML_1 = b"""<?xml version="1.0" encoding="UTF-8"?>
  </body>
 </tt>
 """
+# ruby whose annotation is only active for part of the time, display=none inside a ruby, an un-associated ruby
+TTML_2 = b"""<?xml version="1.0" encoding="UTF-8"?>
+<tt xml:lang="ja" xmlns="http://www.w3.org/ns/ttml" xmlns:tts="http://www.w3.org/ns/ttml#styling">
+ <head><layout><region xml:id="r1" tts:extent="80% 20%" tts:origin="10% 70%"/></layout></head>
+ <body><div>
+  <p region="r1" begin="0s" end="10s">x<span tts:ruby="container"><span tts:ruby="base">kanji</span><span tts:ruby="text" begin="2s" end="4s">kana</span></span>y</p>
+  <p region="r1" begin="10s" end="12s"><span tts:ruby="container"><span tts:ruby="base">b</span><span tts:ruby="text" tts:display="none">t</span></span></p>
+  <p begin="12s" end="14s">no region <span tts:ruby="container"><span tts:ruby="base">b</span><span tts:ruby="text"> </span></span></p>
+ </div></body>
+</tt>
+"""
 SRT_1 = b"""1
 00:00:01,000 --> 00:00:02,500
 Hello <b>bold <i>both</i></b> and {u}under{/u}
@@ -124,7 +135,7 @@ SCC_1 = b"""Scenarist_SCC V1.0
 
 def seeds():
   """format -> list of (name, bytes)."""
-  out = {"ttml": [("hand1", TTML_1)], "srt": [("hand1", SRT_1)], "vtt": [("hand1", VTT_1)], "scc": [("hand1", SCC_1)], "stl": []}
+  out = {"ttml": [("hand1", TTML_1), ("hand2_ruby", TTML_2)], "srt": [("hand1", SRT_1)], "vtt": [("hand1", VTT_1)], "scc": [("hand1", SCC_1)], "stl": []}
   for f in sorted(glob.glob(RES + "/ttml/*.ttml"))[:4]:
     out["ttml"].append((os.path.basename(f), open(f, "rb").read()))
   for f in sorted(glob.glob(RES + "/scc/*.scc"))[:3]:
@@ -291,6 +302,8 @@ def run(ctx):
       import re
       frames = re.findall(r'File "[^"]*/ttconv/([^"]+)", line \d+, in (\w+)', m["where"])
       f["site"] = (frames[-1][0] + ":" + frames[-1][1]) if frames else ""
+      f["ruby_in_input"] = "3c72756279" in m["input"]          # "<ruby" in the (hex) input
+      f["ruby_pattern_error"] = "do not conform to requirements" in m["where"] and "push_children" in m["where"]
       f["mode"] = m["mode"]
       ctx.violation(clause, {"fmt": r["fmt"], "base": m["base"], "faults": r["faults"], "seed": m["seed"], "reader_cfg": m["reader_cfg"],
                              "input_hex": m["input"], "input_len": m["input_len"], "traceback": m["where"]},
